@@ -201,7 +201,7 @@ def gen(tier, seed):
     for i in range(n_tree):
         depth = rng.choice([1, 2, 2, 3] if not thorough else [1, 2, 3, 3, 4])
         opts = dict(unions=rng.random() < 0.35, nonascii=True, kinds=kinds)
-        T = sc.gen_dc(rng, depth, namer, opts, kind=kinds[i % 3])
+        T = sc.norm_unions(sc.gen_dc(rng, depth, namer, opts, kind=kinds[i % 3]))
         v = sc.gen_value(rng, T, opts)
         cases.append(dict(ty=T, val=v, via=VIAS[i % len(VIAS)], stream="tree"))
     # 4. lenient raw dicts (no Union / Literal inside: a string is a legitimate value there)
@@ -221,7 +221,7 @@ def gen(tier, seed):
     n_bad = 200 if not thorough else 2000
     for i in range(n_bad):
         opts = dict(unions=rng.random() < 0.3, kinds=kinds)
-        T = sc.gen_dc(rng, rng.choice([1, 2]), namer, opts)
+        T = sc.norm_unions(sc.gen_dc(rng, rng.choice([1, 2]), namer, opts))
         v = sc.gen_value(rng, T, opts)
         raw, expect = lenify(random.Random(0), T, v) if not has_kind(T, ["lit", "union"]) else (None, None)
         if raw is None:
